@@ -222,8 +222,8 @@ func (C08) Runs(tier string) int {
 
 func (C08) Meta() core.Meta {
 	return core.Meta{
-		Level: "exploration",
-		Rule: "encode case = (data length incl. 0 and around multiples of 3 and 48, sequence of Write calls incl. none / only empty writes / 1-byte writes, Close) checked against the reference armor and de-armored under a delivery+read schedule; decode case = canonical armor of random data with 1..3 transport corruptions (line drop/dup/swap/split/join, byte flip/substitution, truncation, CRLF on all/some lines, lone CR, whitespace before/after around the 1024-byte bound, garbage, PEM headers, padding moved/stripped/added, short middle line, long line, ...) read under a schedule; sweep runs enumerate every truncation length, every deleted byte, 6 inserted bytes at every offset and 5 substitutions of every byte of a small text. Non-trivial = text differs from canonical armor (decode) or has at least one Write call (encode); distinct = distinct (length, schedule, corruption list).",
+		Level:       "exploration",
+		Rule:        "encode case = (data length incl. 0 and around multiples of 3 and 48, sequence of Write calls incl. none / only empty writes / 1-byte writes, Close) checked against the reference armor and de-armored under a delivery+read schedule; decode case = canonical armor of random data with 1..3 transport corruptions (line drop/dup/swap/split/join, byte flip/substitution, truncation, CRLF on all/some lines, lone CR, whitespace before/after around the 1024-byte bound, garbage, PEM headers, padding moved/stripped/added, short middle line, long line, ...) read under a schedule; sweep runs enumerate every truncation length, every deleted byte, 6 inserted bytes at every offset and 5 substitutions of every byte of a small text. Non-trivial = text differs from canonical armor (decode) or has at least one Write call (encode); distinct = distinct (length, schedule, corruption list).",
 		Assumptions: []string{"documented tolerances are exactly: CRLF line ends, whitespace before the BEGIN line and after the END line (ASCII whitespace generated)", "reference armor codec (sim/ref) validated on the CCTV armor vectors"},
 		Real:        []string{"armor.NewWriter", "armor.NewReader", "internal/format WrappedBase64Encoder"},
 		Stub:        []string{"destination (bytes recorder)", "text source with delivery schedule (SimSource)", "transport corruptor"},
